@@ -201,6 +201,74 @@ def step_coqchk(ctx, modules):
     ctx.oblig("coqchk re-check of %s; axioms: %s" % (",".join(modules), ax.replace("\n", " ")), rc == 0 and ax.startswith("<none>"), out[-600:])
 
 
+def coq_str(s):
+    """a Python str as a Coq term of type list N"""
+    return "[" + "; ".join(str(ord(c)) for c in s) + "]"
+
+
+def step_incoq(ctx):
+    """extraction cross-check (thorough tier): a sample of inputs is evaluated INSIDE Coq with vm_compute and must equal what the
+    extracted OCaml model printed for the same inputs (guards the extraction and the driver's encoding, both in the trusted base)"""
+    import random
+    sys.path.insert(0, os.path.join(VERIF, "tools"))
+    import gen_conv, gen_units, docs
+    rng = random.Random(1000 + ctx.seed)
+    words = [[rng.choice(ADV) for _ in range(rng.randint(0, 5))] for _ in range(40)]
+    words = [["".join(w)] + ["".join(rng.choice(ADV) for _ in range(rng.randint(0, 3))) for _ in range(rng.randint(0, 2))] for w in words]
+    words = [[w for w in ws if "\0" not in w] for ws in words]
+    raws = ["".join(rng.choice(ADV + ["\\", "x", "4", "1", "n", '"', "'"]) for _ in range(rng.randint(0, 7))) for _ in range(40)]
+    texts = [gen_units.render(rng, gen_units.gen_model(rng)) for _ in range(25)] if hasattr(gen_units, "render") else []
+    sets = []
+    for _ in range(15):
+        fs = gen_conv.gen_unit_set(rng)
+        if all(ord(ch) < 0x110000 and "\0" not in t for _, t in fs for ch in t):
+            sets.append(fs)
+    cases = [case_line("quote_words_raw", *ws) for ws in words] + [case_line("unquote", r) for r in raws] + \
+            [case_line("split_word", r) for r in raws] + [case_line("parse", t) for t in texts] + \
+            [case_line("digest", *[x for f in fs for x in f]) for fs in sets]
+    outs = run_model(cases)
+    lines = ["From QV Require Import Model.Base Generated.Tables Model.Quote Model.Unquote Model.Split Model.Unit Model.Parser Model.Names Model.Convert Model.Process.",
+             "Open Scope N_scope.",
+             "Definition digest (files : list (str * str)) : list (N * str) :=",
+             "  map (fun r => match snd r with ROk svc sp => (1, to_string svc ++ [0] ++ sp) | RErr _ => (2, []) | RPanic => (3, []) | RSkip => (4, []) end)",
+             "      (snd (process_files %s (fun _ => false) true false files))." % coq_str("/usr/bin/podman"),
+             "Definition dump (u : unit) : list (str * list (str * str)) := u."]
+    n = 0
+    def opt(o, conv):
+        t = o.split("\t")
+        return "Some (%s)" % conv(t[1:]) if t[0] == "OK" else "None"
+    k = 0
+    for ws in words:
+        o = outs[k].split("\t"); k += 1
+        lines.append("Goal quote_words [%s] = %s. Proof. vm_compute. reflexivity. Qed." % ("; ".join(coq_str(w) for w in ws), coq_str(unhx(o[1]).decode("utf-8", "surrogatepass")))); n += 1
+    for r in raws:
+        lines.append("Goal unquote_value %s = %s. Proof. vm_compute. reflexivity. Qed." % (coq_str(r), opt(outs[k], lambda f: coq_str(unhx(f[0]).decode("utf-8", "surrogatepass")) if f else "[]"))); k += 1; n += 1
+    for r in raws:
+        o = outs[k].split("\t"); k += 1
+        if o[0] == "OK":
+            lines.append("Goal split_word_all %s = [%s]. Proof. vm_compute. reflexivity. Qed." % (coq_str(r), "; ".join(coq_str(unhx(x).decode("utf-8", "surrogatepass")) for x in o[1:]))); n += 1
+    for t in texts:
+        o = outs[k]; k += 1
+        if o.startswith("OK"):
+            u = parse_unit_tokens(o.split("\t"), 1)[0]
+            term = "[" + "; ".join("(%s, [%s])" % (coq_str(nm), "; ".join("(%s, %s)" % (coq_str(a), coq_str(b)) for a, b in es)) for nm, es in u) + "]"
+            lines.append("Goal option_map dump (parse_unit %s) = Some %s. Proof. vm_compute. reflexivity. Qed." % (coq_str(t), term)); n += 1
+        else:
+            lines.append("Goal parse_unit %s = None. Proof. vm_compute. reflexivity. Qed." % coq_str(t)); n += 1
+    for fs in sets:
+        o = outs[k].split("\t"); k += 1
+        if o[0] != "OK":
+            continue
+        items = ["(%s, %s)" % (o[i], coq_str(unhx(o[i + 1]).decode("utf-8", "surrogatepass"))) for i in range(1, len(o) - 1, 2)]
+        lines.append("Goal digest [%s] = [%s]. Proof. vm_compute. reflexivity. Qed." % ("; ".join("(%s, %s)" % (coq_str(p), coq_str(t)) for p, t in fs), "; ".join(items))); n += 1
+    d = os.path.join(BUILD, "incoq")
+    os.makedirs(d, exist_ok=True)
+    open(os.path.join(d, "Cases.v"), "w").write("\n".join(lines) + "\n")
+    rc, out = sh("timeout 900 coqc -noglob -Q %s QV %s" % (COQ, os.path.join(d, "Cases.v")), cwd=d, timeout=1000)
+    ctx.oblig("extraction cross-check: %d evaluations inside Coq (vm_compute: quote_words, unquote_value, split_word_all, parse_unit, whole runs of process_files) equal the extracted OCaml model's output" % n,
+              rc == 0, out[-800:])
+
+
 def file_hash(*paths):
     h = hashlib.sha256()
     for p in paths:
